@@ -480,4 +480,53 @@ theorem near_miss_hello_not_established :
                serverCaps := [.unknown "urn:ietf:params:netconf:base:1.0#", .base10] } := by
   decide
 
+/-! ### a hello message is ONE document: a second root element is refused
+
+`ServerMsg::from_xml` used to overwrite the message it had read with a later root element of the same
+name (D23): a message holding two `<hello>` elements — not a well-formed document — established a
+session from the second. `RCfg.oneRoot` is the repaired rule. -/
+
+/-- once a hello has been read, another root element is an unexpected event, whatever it is and
+whatever follows it (for the `hello` element itself this needs `oneRoot`) -/
+theorem fromXmlHello_second_root (c : RCfg) (hc : c.oneRoot = true) (o : UriOracle) (fuel : Nat)
+    (v : Hello) (t : Tag) (rest : List Ev) :
+    fromXmlHello c o (fuel + 1) (some v) (.start t :: rest) = .error .unexpected := by
+  simp [fromXmlHello, hc]
+
+/-- every document of the hello grammar followed by a further start tag — a second `<hello>` in
+particular — establishes no session, for every first hello, every second element and every
+continuation -/
+theorem second_root_refused (c : RCfg) (hc : c.oneRoot = true) (adv : Bool) (o : UriOracle)
+    (raw : String) (attrs : List AttrItem) (cs : List HChild) (hwf : ∀ x ∈ cs, x.WF)
+    (t2 : Tag) (rest : List Ev) (ctx : Context) :
+    establish c adv o
+      (.start (helloTag raw attrs) :: (cs.flatMap HChild.render ++ .end raw :: .start t2 :: rest)) ≠ .ok ctx := by
+  unfold establish
+  simp only [List.length_cons, List.length_append]
+  rw [fromXmlHello]
+  have ht : (helloTag raw attrs).is BASE "hello" = true := by simp [Tag.is, helloTag]
+  simp only [ht, Option.isSome_none, Bool.and_false, Bool.not_false, Bool.and_true, if_true]
+  have hraw : (helloTag raw attrs).raw = raw := rfl
+  rw [hraw, helloLoop_refines c o cs hwf _ raw none none (.start t2 :: rest) (by omega)]
+  cases helloAbs c o none none cs with
+  | error e => simp [liftP]
+  | ok h =>
+    simp only [liftP]
+    have : (cs.flatMap HChild.render).length + (rest.length + 1 + 1) + 1
+        = ((cs.flatMap HChild.render).length + rest.length + 2) + 1 := by omega
+    rw [this, fromXmlHello_second_root c hc]
+    simp
+
+/-- the pinned reader (and the code before the repair) established a session from the SECOND of two
+hello elements: session-id 9 of the second, not 4 of the first -/
+def exTwoHellos : List Ev :=
+  (exHello ["urn:ietf:params:netconf:base:1.0"]).dropLast ++
+    helloDoc "hello" [] [.caps "capabilities" [.cap "urn:ietf:params:netconf:base:1.0" [.text "urn:ietf:params:netconf:base:1.0"]],
+                         .sid "9" [.text "9"]]
+
+theorem second_root_overwrites_cex :
+    (establish { RCfg.fixed with oneRoot := false } false exOracle exTwoHellos).toOption.map (·.sid) = some 9
+    ∧ (establish .fixed false exOracle exTwoHellos).toOption = none := by
+  decide
+
 end Xml
